@@ -292,7 +292,7 @@ impl<'a> Context<'a> {
         self.tokens
             .iter()
             .skip(self.last_statement)
-            .take(self.curr - self.last_statement)
+            .take(self.curr.saturating_sub(self.last_statement))
             .filter_map(|t| match t {
                 Token::Comment(c) => Some(c.clone()),
                 _ => None,
